@@ -378,6 +378,9 @@ def stage_of(s):
     return "other"
 
 
+ORIGIN_FLAGS = {"is_plugin", "is_third_party"}
+
+
 def r5d_siblings(ctx):
     r = Result("R5d", "resolvers that answer 'which definition does this name denote for file F' (navigation cascade, per-file view "
                       "for completion/inlay hints, outgoing-call resolution) use the same selector class in the same stage: "
@@ -428,6 +431,13 @@ def r5d_siblings(ctx):
                                   fid.split("::")[-1], a[0], (" by " + a[1]) if a[1] else "", b[0], (" by " + b[1]) if b[1] else ""))
                 continue
             if st not in ref or st in ("name-only", "other"):
+                continue
+            # the origin flags a stage tests must agree: a plugin stage that requires `is_plugin && !is_third_party` in one
+            # resolver and `is_plugin` alone in the other ranks an installed plugin differently
+            fa, fb = s.fields & ORIGIN_FLAGS, ref[st].fields & ORIGIN_FLAGS
+            if st in ("plugin", "third-party") and fa != fb:
+                r.violate("R5d|%s|%s stage tests %s vs %s" % (fid, st, "+".join(sorted(fa)) or "-", "+".join(sorted(fb)) or "-"),
+                          "%s tests %s in its %s stage, navigation tests %s" % (fid.split("::")[-1], sorted(fa), st, sorted(fb)))
                 continue
             key = "R5d|%s|%s stage: %s vs %s" % (fid, st, s.klass, ref[st].klass)
             if s.klass == ref[st].klass or st in ("plugin", "third-party", "conftest"):
@@ -549,6 +559,32 @@ def r5f_walk_bounds(ctx):
                     exits.append((b, s2, kind))
             pn = [e for e in exits if e[2] == "parent-none"]
             key = "R5f|%s" % f.id
+            # the walk starts in the requesting file's own directory: every value the walk variable holds before the first
+            # iteration is ONE parent() step away from what it is computed from (a second step -- `parent().and_then(Path::parent)`
+            # for a conftest.py "whose own directory is already covered" -- skips the conftest's own imports)
+            starts = []
+            # walk variables: the Option results themselves, and the locals that receive their Some payload inside the loop
+            wvars = set(opts)
+            for _ in range(5):
+                for bb2, si, pl, rv, sp in f.assigns():
+                    tgt = place_local(pl)
+                    src = place_local(op_place(rv[1])) if rv[0] == "use" and op_place(rv[1]) is not None else \
+                        place_local(rv[2]) if rv[0] == "ref" and all(e == "*" for e in place_projs(rv[2])) else None
+                    if bb2 in body and tgt is not None and not (place_projs(pl) if not isinstance(pl, int) else []) \
+                            and src in wvars and tgt not in wvars:
+                        wvars.add(tgt)
+            for ol in sorted(wvars):
+                for d in f.whole_defs(ol):
+                    dbb = d[1]
+                    if dbb in body:
+                        continue
+                    if d[0] == "assign" and d[3][0] == "use" and op_local(d[3][1]) in wvars:
+                        continue  # a move between walk variables
+                    starts.append(_parent_steps(f, d))
+            if starts and any(k != 1 for k in starts):
+                r.violate(key + "|walk-start", "the conftest walk in %s starts %s parent() steps above the requesting file on some path "
+                                               "(expected exactly 1: the file's own directory)" % (f.id, sorted(set(starts))))
+                continue
             if not pn:
                 r.violate(key + "|no-end-of-path-exit", "the conftest walk in %s has no exit on the None outcome of parent()" % f.id)
                 continue
@@ -566,6 +602,41 @@ def r5f_walk_bounds(ctx):
                 r.ok(sample={"walk_in": f.id, "exits": len(exits), "end_of_path_exits": len(pn)})
     r.floor("conftest walks", n, 2)
     return r
+
+
+def _parent_steps(f, d, limit=60):
+    """number of Path::parent applications (calls, or the function handed to and_then / map) in the backward slice of a def"""
+    from ..core import op_const
+    cnt = 0
+    seen = set()
+    st = []
+
+    def from_call(c):
+        nonlocal cnt
+        if re.search(r"path::Path::parent$", c.get("res") or ""):
+            cnt += 1
+        for a in c["args"]:
+            k = op_const(a) if isinstance(a, list) else None
+            if k and re.search(r"path::Path::parent$", k.get("res") or ""):
+                cnt += 1
+            st.append(op_local(a))
+    if d[0] == "call":
+        from_call(d[2])
+    elif d[0] == "assign":
+        rv = d[3]
+        st += [op_local(rv[1])] if rv[0] == "use" else [place_local(rv[2])] if rv[0] == "ref" else [op_local(o) for o in rv[2]] if rv[0] == "agg" else []
+    while st and len(seen) < limit:
+        l = st.pop()
+        if l is None or l in seen:
+            continue
+        seen.add(l)
+        for d2 in f.whole_defs(l):
+            if d2[0] == "call":
+                from_call(d2[2])
+            elif d2[0] == "assign":
+                rv = d2[3]
+                st += [op_local(rv[1])] if rv[0] == "use" else [place_local(rv[2])] if rv[0] == "ref" else [op_local(o) for o in rv[2]] if rv[0] == "agg" else []
+    return cnt
 
 
 def _lit_of(f, op):
@@ -983,6 +1054,24 @@ def _ret_sources(f, depth_limit=12):
     return out
 
 
+def _plain_root(f, op, depth=0):
+    """the local an operand denotes through plain copies, reborrows and derefs (no calls)"""
+    l = op_local(op)
+    if l is None or depth > 10:
+        return None
+    p = op_place(op)
+    if p is not None and [e for e in place_projs(p) if e != "*"]:
+        return None
+    ds = f.whole_defs(l)
+    if len(ds) == 1 and ds[0][0] == "assign":
+        rv = ds[0][3]
+        if rv[0] == "use" and op_place(rv[1]) is not None:
+            return _plain_root(f, rv[1], depth + 1)
+        if rv[0] == "ref":
+            return _plain_root(f, ["cp", rv[2]], depth + 1)
+    return l
+
+
 def r5k_single_source(ctx):
     r = Result("R5k", "(i) an entry point of the navigation cascade (a function that calls the resolver core with a filter closure "
                       "and has the core's result type) returns exactly what the core returns: no second source (a cached list, a "
@@ -1014,9 +1103,23 @@ def r5k_single_source(ctx):
                     continue  # None
                 other.append(d)
             key = "R5k|%s|second source" % f.id
+            # the requesting file and the name go to the core unchanged: the path / str arguments of the core call are the
+            # entry point's own parameters (a directory computed from the excluded definition starts the walk elsewhere)
+            moved = []
+            for _bb, c in sites:
+                for i, a in enumerate(c["args"]):
+                    ty = core.local_ty(i + 1) if i + 1 <= core.argc else ""
+                    if not re.search(r"std::path::Path\b|^&str$", ty):
+                        continue
+                    rl = _plain_root(f, a)
+                    if rl is None or not (1 <= rl <= f.argc):
+                        moved.append("%s (arg %d)" % (ty, i))
             if other:
                 what = other[0][2].get("res") if other[0][0] == "call" else other[0][3][0] if other[0][0] == "assign" else other[0][0]
                 r.violate(key, "%s returns a definition that does not come from the resolver core on some path (%s)" % (f.id, what))
+            elif moved:
+                r.violate("R5k|%s|argument not passed through" % f.id, "%s hands the resolver core a %s that is not its own parameter: "
+                          "the cascade starts from another file / name than the request's" % (f.id, moved[0]))
             else:
                 r.ok(sample={"entry_point": f.id.split("::")[-1]})
         r.floor("entry points of the cascade", n, 2)
